@@ -92,7 +92,8 @@ pub fn vectors(max_len: usize) -> Vec<Value> {
             }
         }};
     }
-    let tables: Vec<Vec<f64>> = vec![vec![0.2, 0.5, 0.3], vec![1e-10, 1.0, 0.0], vec![0.25, 0.25, 0.5], vec![0.1, 0.2, 0.3, 0.4], vec![0.999, 0.001]];
+    let tables: Vec<Vec<f64>> = vec![vec![0.2, 0.5, 0.3], vec![1e-10, 1.0, 0.0], vec![0.25, 0.25, 0.5], vec![0.1, 0.2, 0.3, 0.4], vec![0.999, 0.001], vec![1.0 / 3.0, 1.0 / 3.0, 1.0 / 3.0], vec![0.1, 0.2, 0.7]];
+    let mut fast_and_perfect_differ = false;
     for t in &tables {
         let alphabet: Vec<i32> = (0..t.len() as i32).collect();
         let msgs = messages(&alphabet, if t.len() >= 4 { max_len.min(3) } else { max_len });
@@ -105,6 +106,8 @@ pub fn vectors(max_len: usize) -> Vec<Value> {
         // arguments left to the binding's documented defaults: (lazy=False) -> fast; (perfect=False) -> fast;
         // (perfect=True) -> perfect; (lazy=True) -> lazy; nothing -> perfect (backward-compatible default)
         if t.len() == 3 {
+            use constriction::stream::model::IterableEntropyModel;
+            if fast.symbol_table().map(|(s, c, p)| (s, c, p.get())).collect::<Vec<_>>() != perfect.symbol_table().map(|(s, c, p)| (s, c, p.get())).collect::<Vec<_>>() { fast_and_perfect_differ = true; }
             let short: Vec<Vec<i32>> = msgs.iter().filter(|m| m.len() <= 2).cloned().collect();
             both_coders!(json!({"kind": "categorical", "probs": t, "lazy": false, "perfect": false, "omit": ["perfect"]}), short, fast, |&s| s as usize);
             both_coders!(json!({"kind": "categorical", "probs": t, "lazy": false, "perfect": false, "omit": ["lazy"]}), short, fast, |&s| s as usize);
@@ -117,6 +120,7 @@ pub fn vectors(max_len: usize) -> Vec<Value> {
         let t32_as_f64: Vec<f64> = t32.iter().map(|&x| x as f64).collect();
         both_coders!(json!({"kind": "categorical", "probs": t32_as_f64, "lazy": false, "perfect": false, "f32": true}), msgs, fast32, |&s| s as usize);
     }
+    assert!(fast_and_perfect_differ, "HARNESS: the default-argument vectors are vacuous unless the fast and the perfect quantisation differ on some table");
     for (lo, hi, mean, std) in [(-5i32, 5i32, 0.7f64, 2.3f64), (-100, 100, 35.2, 10.1), (0, 1, 0.5, 1e-3)] {
         let q = DefaultLeakyQuantizer::<f64, i32>::new(lo..=hi);
         let m = q.quantize(Gaussian::new(mean, std));
@@ -184,7 +188,7 @@ pub fn c06_part(report: &Report, max_len: usize) {
             report.add_transitions(2 * n);
             report.count("python_vectors_replayed", n);
             let f = report_failures(report, &v, "");
-            report.section(json!({"part": "Python front end vs Rust front end", "what": "every message up to the listed length over 5 categorical tables x {fast, perfect, lazy, f32}, 3 quantised Gaussians, 4 uniform models, 3 Bernoulli models, ANS and range coder: identical words, and the Rust words decode to the message",
+            report.section(json!({"part": "Python front end vs Rust front end", "what": "every message up to the listed length over 7 categorical tables x {fast, perfect, lazy, f32, arguments left to their defaults}, 3 quantised Gaussians, 4 uniform models, 3 Bernoulli models, ANS and range coder: identical words, and the Rust words decode to the message",
                 "max_message_length": max_len, "vectors": n, "failures": f, "wall_s": t.elapsed().as_secs_f64()}));
         }
     }
